@@ -530,3 +530,124 @@ Proof.
   intros H. destruct (sm_keys m) as [|k r] eqn:E; [reflexivity|]. exfalso.
   assert (Hk : In k (sm_keys m)) by (rewrite E; left; reflexivity). apply sm_keys_In' in Hk. apply Hk, H.
 Qed.
+
+(* ------------------------------------------------------------------ slot reuse: versions only grow *)
+
+(* the u32 version of no slot is about to wrap (2^31 remove/insert cycles of one slot are needed to get there) *)
+Definition no_wrap {V} (m : slotmap V) : Prop := Forall (fun s => (s_ver s + 1 < 2 ^ 32)%N) (sm_slots m).
+
+(* the slot of k has moved past k's version: k was handed out earlier and removed since *)
+Definition spent {V} (m : slotmap V) (k : key) : Prop :=
+  exists s, nth_error (sm_slots m) (fst k) = Some s /\ (snd k < s_ver s)%N.
+
+Lemma spent_dead {V} (m : slotmap V) k : spent m k -> sm_get m k = None.
+Proof.
+  intros [s [Hs Hlt]]. unfold sm_get. rewrite Hs. destruct (N.eqb_spec (s_ver s) (snd k)); [lia | reflexivity].
+Qed.
+
+Lemma le_lor_1 v : (v <= N.lor v 1)%N.
+Proof.
+  destruct v as [|p]; simpl; [lia|]. destruct p; simpl; lia.
+Qed.
+
+Lemma spent_insert {V} (m : slotmap V) v k : spent m k ->
+  spent (fst (sm_insert m v)) k /\ snd (sm_insert m v) <> k.
+Proof.
+  intros [s [Hs Hlt]]. unfold sm_insert. destruct (nth_error (sm_slots m) (sm_free m)) as [s0|] eqn:Ef; cbn [fst snd sm_slots].
+  - destruct (Nat.eq_dec (sm_free m) (fst k)) as [E|E].
+    + rewrite E in Ef. assert (s0 = s) by congruence. subst s0. pose proof (le_lor_1 (s_ver s)). split.
+      * exists (mkSlot (N.lor (s_ver s) 1) (Occ v)). cbn [sm_slots]. split; [rewrite E; apply nth_error_upd_eq; eapply nth_error_Some_lt; eauto|].
+        simpl. lia.
+      * intros Hk. rewrite <- Hk in Hlt. simpl in Hlt. lia.
+    + split.
+      * exists s. cbn [sm_slots]. rewrite nth_error_upd_neq by exact E. auto.
+      * intros Hk. apply E. rewrite <- Hk. reflexivity.
+  - pose proof (nth_error_Some_lt Hs) as Hl. split.
+    + exists s. cbn [sm_slots]. rewrite nth_error_app1 by exact Hl. auto.
+    + intros Hk. rewrite <- Hk in Hl. simpl in Hl. lia.
+Qed.
+
+Lemma spent_set {V} (m m' : slotmap V) k' v k : sm_set m k' v = Ok m' -> spent m k -> spent m' k.
+Proof.
+  intros H [s [Hs Hlt]]. apply sm_set_inv in H. destruct H as [old [Ho ->]]. apply sm_get_Some in Ho. cbn [sm_slots].
+  destruct (Nat.eq_dec (fst k') (fst k)) as [E|E].
+  - rewrite E in Ho. assert (Es : s = mkSlot (snd k') (Occ old)) by congruence. subst s. simpl in Hlt.
+    exists (mkSlot (snd k') (Occ v)). cbn [sm_slots]. split; [rewrite E; apply nth_error_upd_eq; eapply nth_error_Some_lt; eauto | exact Hlt].
+  - exists s. cbn [sm_slots]. rewrite nth_error_upd_neq by exact E. auto.
+Qed.
+
+Lemma wrap32_succ_small v : (v + 1 < 2 ^ 32)%N -> wrap32 (v + 1) = (v + 1)%N.
+Proof. intros H. unfold wrap32. apply N.mod_small. exact H. Qed.
+
+Lemma spent_remove_from_slot {V} (m : slotmap V) i k : no_wrap m -> spent m k -> spent (fst (sm_remove_from_slot m i)) k.
+Proof.
+  intros Hw [s [Hs Hlt]]. unfold sm_remove_from_slot. destruct (nth_error (sm_slots m) i) as [si|] eqn:Ei; cbn [fst sm_slots].
+  - destruct (Nat.eq_dec i (fst k)) as [E|E].
+    + rewrite E in Ei. assert (si = s) by congruence. subst si.
+      pose proof (Forall_nth Hw Hs) as Hws. cbv beta in Hws.
+      exists (mkSlot (wrap32 (s_ver s + 1)) (Vac (sm_free m))). cbn [sm_slots]. split.
+      * rewrite E. apply nth_error_upd_eq. eapply nth_error_Some_lt; eauto.
+      * simpl. rewrite (wrap32_succ_small _ Hws). lia.
+    + exists s. cbn [sm_slots]. rewrite nth_error_upd_neq by exact E. auto.
+  - exists s. auto.
+Qed.
+
+Lemma spent_remove {V} (m : slotmap V) k' k : no_wrap m -> spent m k -> spent (fst (sm_remove m k')) k.
+Proof.
+  intros Hw Hs. unfold sm_remove. destruct (sm_contains m k'); [apply spent_remove_from_slot; assumption | exact Hs].
+Qed.
+
+Lemma remove_spends {V} (m : slotmap V) k v : no_wrap m -> sm_get m k = Some v -> spent (fst (sm_remove m k)) k.
+Proof.
+  intros Hw Hg. unfold sm_remove. rewrite (sm_contains_get Hg). apply sm_get_Some in Hg.
+  unfold sm_remove_from_slot. rewrite Hg. cbn [fst sm_slots s_ver].
+  pose proof (Forall_nth Hw Hg) as Hws. cbv beta in Hws. cbn [s_ver] in Hws.
+  exists (mkSlot (wrap32 (snd k + 1)) (Vac (sm_free m))). cbn [sm_slots]. split.
+  - apply nth_error_upd_eq. eapply nth_error_Some_lt; eauto.
+  - simpl. rewrite (wrap32_succ_small _ Hws). lia.
+Qed.
+
+(* clear: every slot keeps its version or, if it was occupied, gets the next one *)
+Definition bumped {V} (m m' : slotmap V) : Prop :=
+  forall j s, nth_error (sm_slots m) j = Some s ->
+              exists s', nth_error (sm_slots m') j = Some s' /\
+                         (s_ver s' = s_ver s \/ (N.odd (s_ver s) = true /\ s_ver s' = wrap32 (s_ver s + 1))).
+
+Lemma bumped_refl {V} (m : slotmap V) : bumped m m.
+Proof. intros j s H. exists s. auto. Qed.
+
+Lemma bumped_trans {V} (a b c : slotmap V) : bumped a b -> bumped b c -> bumped a c.
+Proof.
+  intros H1 H2 j s Hs. destruct (H1 j s Hs) as [s1 [Hs1 V1]]. destruct (H2 j s1 Hs1) as [s2 [Hs2 V2]].
+  exists s2. split; [exact Hs2|]. destruct V1 as [E1|[O1 E1]], V2 as [E2|[O2 E2]].
+  - left. congruence.
+  - right. rewrite <- E1. auto.
+  - right. split; [exact O1 | congruence].
+  - exfalso. rewrite E1, odd_wrap32_succ, O1 in O2. discriminate.
+Qed.
+
+Lemma bumped_clear_step {V} (m : slotmap V) idx : bumped m (clear_step m idx).
+Proof.
+  unfold clear_step. destruct (nth_error (sm_slots m) idx) as [si|] eqn:Ei; [|apply bumped_refl].
+  unfold slot_occupied. destruct (N.odd (s_ver si)) eqn:Eo; [|apply bumped_refl].
+  unfold sm_remove_from_slot. rewrite Ei. cbn [fst]. intros j s Hs. cbn [sm_slots].
+  destruct (Nat.eq_dec idx j) as [E|E].
+  - subst j. assert (si = s) by congruence. subst si.
+    exists (mkSlot (wrap32 (s_ver s + 1)) (Vac (sm_free m))). cbn [sm_slots]. split; [apply nth_error_upd_eq; eapply nth_error_Some_lt; eauto|].
+    right. auto.
+  - exists s. cbn [sm_slots]. rewrite nth_error_upd_neq by exact E. auto.
+Qed.
+
+Lemma bumped_clear {V} (m : slotmap V) : bumped m (sm_clear m).
+Proof.
+  rewrite sm_clear_fold. generalize (seq 1 (length (sm_slots m) - 1)). intros is. revert m.
+  induction is as [|i r IH]; intros m; simpl; [apply bumped_refl|].
+  eapply bumped_trans; [apply bumped_clear_step | apply IH].
+Qed.
+
+Lemma spent_clear {V} (m : slotmap V) k : no_wrap m -> spent m k -> spent (sm_clear m) k.
+Proof.
+  intros Hw [s [Hs Hlt]]. destruct (bumped_clear m (fst k) s Hs) as [s' [Hs' Hv]]. exists s'. split; [exact Hs'|].
+  destruct Hv as [E|[_ E]]; [lia|]. pose proof (Forall_nth Hw Hs) as Hws. cbv beta in Hws.
+  rewrite E, (wrap32_succ_small _ Hws). lia.
+Qed.
